@@ -308,6 +308,187 @@ theorem decodeItems_wf (b : Bytes) : WF (decodeItems b) := by
   obtain ⟨y, _, rfl⟩ := List.mem_map.mp hx
   exact y.toNat_lt
 
+/-- a Unicode scalar value -/
+def isScalar (c : Nat) : Prop := c < 0xD800 ∨ (0xE000 ≤ c ∧ c < 0x110000)
+def Scalar (s : Str) : Prop := ∀ c ∈ s, isScalar c
+
+theorem decodeItemsAux_cons (f b0 : Nat) (rest : List Nat) : decodeItemsAux (f + 1) (b0 :: rest) =
+    (let bad := fun (_ : Unit) => (0x110000 + b0) :: decodeItemsAux f rest
+    let cont (b : Nat) : Bool := 0x80 ≤ b && b < 0xC0
+    if b0 < 0x80 then b0 :: decodeItemsAux f rest
+    else if b0 < 0xC2 then bad ()
+    else if b0 < 0xE0 then
+      match rest with
+      | b1 :: r1 => if cont b1 then ((b0 - 0xC0) * 64 + (b1 - 0x80)) :: decodeItemsAux f r1 else bad ()
+      | _ => bad ()
+    else if b0 < 0xF0 then
+      match rest with
+      | b1 :: b2 :: r2 =>
+        let lo := if b0 = 0xE0 then 0xA0 else 0x80
+        let hi := if b0 = 0xED then 0xA0 else 0xC0
+        if lo ≤ b1 && b1 < hi && cont b2 then
+          ((b0 - 0xE0) * 4096 + (b1 - 0x80) * 64 + (b2 - 0x80)) :: decodeItemsAux f r2
+        else bad ()
+      | _ => bad ()
+    else if b0 < 0xF5 then
+      match rest with
+      | b1 :: b2 :: b3 :: r3 =>
+        let lo := if b0 = 0xF0 then 0x90 else 0x80
+        let hi := if b0 = 0xF4 then 0x90 else 0xC0
+        if lo ≤ b1 && b1 < hi && cont b2 && cont b3 then
+          ((b0 - 0xF0) * 262144 + (b1 - 0x80) * 4096 + (b2 - 0x80) * 64 + (b3 - 0x80)) :: decodeItemsAux f r3
+        else bad ()
+      | _ => bad ()
+    else bad ()) := rfl
+
+set_option maxRecDepth 8000 in
+/-- decoding the encoding of a scalar value gives the scalar value back, whatever follows -/
+theorem decode_utf8ItemN (f : Nat) (c : Nat) (hc : isScalar c) (rest : List Nat) (hf : 0 < f) :
+    ∃ f', f' + 1 = f ∧ decodeItemsAux f (utf8ItemN c ++ rest) = c :: decodeItemsAux f' rest := by
+  obtain ⟨f', rfl⟩ : ∃ f', f = f' + 1 := ⟨f - 1, by omega⟩
+  refine ⟨f', rfl, ?_⟩
+  unfold isScalar at hc
+  unfold utf8ItemN
+  split
+  · rename_i h1
+    simp only [List.singleton_append]
+    rw [decodeItemsAux_cons]
+    simp only [h1, if_true]
+  split
+  · rename_i h1 h2
+    simp only [List.cons_append, List.nil_append]
+    rw [decodeItemsAux_cons]
+    simp only []
+    rw [if_neg (by omega), if_neg (by omega), if_pos (by omega)]
+    have hcont : (decide (0x80 ≤ 0x80 + c % 64) && decide (0x80 + c % 64 < 0xC0)) = true := by
+      simp only [Bool.and_eq_true, decide_eq_true_eq]; omega
+    rw [if_pos hcont]
+    congr 1; omega
+  split
+  · rename_i h1 h2 h3
+    simp only [List.cons_append, List.nil_append]
+    rw [decodeItemsAux_cons]
+    simp only []
+    rw [if_neg (by omega), if_neg (by omega), if_neg (by omega), if_pos (by omega)]
+    have hcond : (decide ((if 0xE0 + c / 4096 = 0xE0 then 0xA0 else 0x80) ≤ 0x80 + c / 64 % 64) &&
+        decide (0x80 + c / 64 % 64 < (if 0xE0 + c / 4096 = 0xED then 0xA0 else 0xC0)) &&
+        (decide (0x80 ≤ 0x80 + c % 64) && decide (0x80 + c % 64 < 0xC0))) = true := by
+      simp only [Bool.and_eq_true, decide_eq_true_eq]
+      refine ⟨⟨?_, ?_⟩, by omega, by omega⟩
+      · split <;> omega
+      · split <;> omega
+    rw [if_pos hcond]
+    congr 1; omega
+  split
+  · rename_i h1 h2 h3 h4
+    simp only [List.cons_append, List.nil_append]
+    rw [decodeItemsAux_cons]
+    simp only []
+    rw [if_neg (by omega), if_neg (by omega), if_neg (by omega), if_neg (by omega), if_pos (by omega)]
+    have hcond : (decide ((if 0xF0 + c / 262144 = 0xF0 then 0x90 else 0x80) ≤ 0x80 + c / 4096 % 64) &&
+        decide (0x80 + c / 4096 % 64 < (if 0xF0 + c / 262144 = 0xF4 then 0x90 else 0xC0)) &&
+        (decide (0x80 ≤ 0x80 + c / 64 % 64) && decide (0x80 + c / 64 % 64 < 0xC0)) &&
+        (decide (0x80 ≤ 0x80 + c % 64) && decide (0x80 + c % 64 < 0xC0))) = true := by
+      simp only [Bool.and_eq_true, decide_eq_true_eq]
+      refine ⟨⟨⟨?_, ?_⟩, by omega, by omega⟩, by omega, by omega⟩
+      · split <;> omega
+      · split <;> omega
+    rw [if_pos hcond]
+    congr 1; omega
+  · omega
+
+theorem utf8ItemN_ne_nil (c : Nat) : utf8ItemN c ≠ [] := by
+  unfold utf8ItemN; split; · simp
+  split; · simp
+  split; · simp
+  split <;> simp
+
+theorem utf8ItemN_lt (c : Nat) (hc : isScalar c) : ∀ x ∈ utf8ItemN c, x < 256 := by
+  unfold isScalar at hc
+  unfold utf8ItemN
+  intro x hx
+  split at hx
+  · simp at hx; omega
+  split at hx
+  · simp at hx; omega
+  split at hx
+  · simp at hx; omega
+  split at hx
+  · simp at hx; omega
+  · omega
+
+theorem decode_encode_scalar (s : Str) (hs : Scalar s) : ∀ f, (s.flatMap utf8ItemN).length < f →
+    decodeItemsAux f (s.flatMap utf8ItemN) = s := by
+  induction s with
+  | nil => intro f _; cases f <;> rfl
+  | cons c cs ih =>
+    intro f hf
+    simp only [List.flatMap_cons, List.length_append] at hf ⊢
+    obtain ⟨f', hf', heq⟩ := decode_utf8ItemN f c (hs c (by simp)) (cs.flatMap utf8ItemN) (by omega)
+    rw [heq, ih (fun x hx => hs x (by simp [hx])) f' (by
+      have : 0 < (utf8ItemN c).length := List.length_pos_iff.mpr (utf8ItemN_ne_nil c)
+      omega)]
+
+/-- a list of scalar values is what its own encoding decodes to -/
+theorem decodeItems_utf8 (s : Str) (hs : Scalar s) : decodeItems (utf8 s) = s := by
+  unfold decodeItems
+  have hmap : (utf8 s).map (·.toNat) = s.flatMap utf8ItemN := by
+    unfold utf8
+    rw [List.map_flatMap]
+    have hcongr : ∀ (l : Str), (∀ c ∈ l, isScalar c) →
+        l.flatMap (fun c => (utf8Item c).map (fun (x : UInt8) => x.toNat)) = l.flatMap utf8ItemN := by
+      intro l hl
+      induction l with
+      | nil => rfl
+      | cons c t ih =>
+        simp only [List.flatMap_cons]
+        rw [ih (fun x hx => hl x (by simp [hx]))]
+        congr 1
+        rw [utf8Item_eq, List.map_map]
+        have hlt := utf8ItemN_lt c (hl c (by simp))
+        have : ∀ l : List Nat, (∀ x ∈ l, x < 256) → l.map ((fun (x : UInt8) => x.toNat) ∘ UInt8.ofNat) = l := by
+          intro l hl
+          induction l with
+          | nil => rfl
+          | cons a t ih =>
+            have ha : a < 256 := hl a (by simp)
+            simp only [List.map_cons, Function.comp, ih (fun x hx => hl x (by simp [hx]))]
+            congr 1
+            simp [UInt8.toNat_ofNat']; omega
+        exact this _ hlt
+    exact hcongr s hs
+  rw [hmap]
+  apply decode_encode_scalar s hs
+  rw [← hmap]; simp
+
+/-- **string equality**: two lists of scalar values are equal iff their encodings are — so a map
+lookup by Go string key is the model's lookup by item list, for valid UTF-8 -/
+theorem utf8_inj_scalar (a b : Str) (ha : Scalar a) (hb : Scalar b) (h : utf8 a = utf8 b) : a = b := by
+  rw [← decodeItems_utf8 a ha, ← decodeItems_utf8 b hb, h]
+
+theorem mem_of_mem_splitOn (sep : Nat) (s : Str) : ∀ t ∈ splitOn sep s, ∀ c ∈ t, c ∈ s := by
+  induction s with
+  | nil => intro t ht c hc; simp [splitOn] at ht; subst ht; simp at hc
+  | cons x xs ih =>
+    intro t ht c hc
+    simp only [splitOn] at ht
+    split at ht
+    · rcases List.mem_cons.mp ht with rfl | ht
+      · simp at hc
+      · exact List.mem_cons_of_mem _ (ih t ht c hc)
+    · split at ht
+      · simp at ht; subst ht; simp at hc; subst hc; simp
+      · rename_i w ws hw
+        rcases List.mem_cons.mp ht with rfl | ht
+        · rcases List.mem_cons.mp hc with rfl | hc
+          · simp
+          · exact List.mem_cons_of_mem _ (ih w (by rw [hw]; simp) c hc)
+        · exact List.mem_cons_of_mem _ (ih t (by rw [hw]; exact List.mem_cons_of_mem _ ht) c hc)
+
+theorem scalar_of_token (sep : Nat) (s : Str) (hs : Scalar s) : ∀ t ∈ splitOn sep s, Scalar t :=
+  fun t ht c hc => hs c (mem_of_mem_splitOn sep s t ht c hc)
+
+
 #print axioms utf8_decodeItems
 #print axioms splitOn_utf8
 #print axioms decodeItems_wf
